@@ -76,6 +76,8 @@ def alpha(r, sc):
             tr.append({'ev': 'pdrop', 'vt': vt})
         elif ev == 'io_shutdown':
             tr.append({'ev': 'ioshut', 'vt': vt})
+        elif ev == 'disc_call':
+            tr.append({'ev': 'disc_call', 'who': e['who'], 'vt': vt})
         elif ev == 'disc_ret':
             tr.append({'ev': 'disc_ret', 'who': e['who'], 'exc': e['exc'] or '', 'vt': vt})
         elif ev == 'ret':
@@ -156,7 +158,10 @@ def run(chk):
         envs.append(dict(KeyOf='SameKey', Streaming='FALSE', CanDrop='TRUE', WithUser='FALSE', MaxUpd=1))
         envs.append(dict(KeyOf='SameKey', Streaming='TRUE', CanDrop='TRUE', WithUser='TRUE', MaxUpd=1))
     for n, env in enumerate(envs):
-        chk.add_tlc(model_check('Client', _cfg(f'fixed_{n}', FIXED, env), timeout=1500, heap='12g'))
+        one = quick and env['WithUser'] == 'TRUE'       # quick: user disconnect with a single caller
+        chk.add_tlc(model_check('Client', _cfg(f'fixed_{n}' + ('_1c' if one else ''), FIXED, env,
+                                               callers='{"c1"}' if one else '{"c1", "c2"}'),
+                                timeout=1500, heap='12g'))
     # ... and a peer that may ignore a request produces legitimate time-outs only
     chk.add_tlc(model_check('Client', _cfg('fixed_ign', FIXED, envs[0] | {'Streaming': 'FALSE'}, ignore='{"c1"}'),
                             timeout=600))
